@@ -3,7 +3,7 @@
 set -e
 cd "$(dirname "$0")"
 export CARGO_NET_OFFLINE=true
-( cd coq && timeout 3000 ./mk.sh all ) 2>&1 | tail -5
+( cd coq && timeout 3000 ./mk.sh -k all ) 2>&1 | tail -5 || true
 ( cd oracle && ./build.sh )
 ( cd harness && cargo build --release --offline 2>&1 | tail -2 )
 echo "setup done"
